@@ -224,6 +224,11 @@ func runC13(c *Ctx) {
 	c.Floor("C13.flags", len(flags), 16)
 	// hot reload: a call handing newConf.F to a component, running only when the
 	// component's flag is false and F differs (merged or nested guards, named or not)
+	type c13foreign struct {
+		owner, other, field string
+		pos                 token.Pos
+	}
+	var hotForeign []c13foreign
 	LC.walk(cl.Body.List, nil, isFlag, func(st ast.Stmt, conds []c13lit) {
 		var under []*c13flag
 		differs := &c13flag{cmp: map[string]token.Pos{}, derived: map[string]bool{}, hot: map[string]bool{}}
@@ -242,12 +247,33 @@ func runC13(c *Ctx) {
 			if !ok {
 				return true
 			}
+			// the component the payload is handed to: p.<comp>.Reload*(...)
+			owner := ""
+			if se, ok := call.Fun.(*ast.SelectorExpr); ok {
+				if rs, ok := ast.Unparen(se.X).(*ast.SelectorExpr); ok && compFlag[rs.Sel.Name] != "" {
+					owner = compFlag[rs.Sel.Name]
+				}
+			}
 			for _, a := range call.Args {
 				if f, ok := isConfSel(a, roleNew); ok {
 					// the guard must compare the same field so the reload fires on every change
 					if _, has := differs.cmp[f]; has {
 						for _, fl := range under {
+							if owner != "" && fl.name != owner {
+								continue
+							}
 							fl.hot[f] = true
+						}
+						if owner != "" {
+							// the reload of component X may depend on !closeX only: another
+							// component's negated flag G in the guard loses the reload whenever G
+							// holds and closeX does not - unless closeX includes G (then !closeX
+							// already implies !G)
+							for _, fl := range under {
+								if fl.name != owner {
+									hotForeign = append(hotForeign, c13foreign{owner, fl.name, f, call.Pos()})
+								}
+							}
 						}
 					}
 				}
@@ -355,6 +381,12 @@ func runC13(c *Ctx) {
 		}
 	}
 	flagOfComp := func(comp string) string { return compFlag[comp] }
+	for _, hf := range hotForeign {
+		seen := map[string]bool{}
+		closure(hf.owner, seen)
+		c.Check("C13.hot_guard", "in-place reload of conf."+hf.field+" under !"+hf.owner+" is also guarded by !"+hf.other+" ⇒ "+hf.owner+" includes "+hf.other, seen[hf.other], p.Pos(hf.pos),
+			"when "+hf.other+" holds and "+hf.owner+" does not (a reload that changes conf."+hf.field+" together with a parameter that recreates only the other component) the component is neither recreated nor reloaded and keeps the old conf."+hf.field)
+	}
 
 	for _, comp := range compOrder {
 		cm := comps[comp]
